@@ -435,7 +435,7 @@ func (t *Translator) sliceParam15(fi *funcInfo, i int) *types.Var {
 }
 
 func (fi *funcInfo) isOut15(i int) bool {
-	for _, j := range fi.outs {
+	for _, j := range fi.outs15 {
 		if i == j {
 			return true
 		}
@@ -497,7 +497,7 @@ func (t *Translator) outs15(fi *funcInfo) bool {
 				}
 				if fn, _ := t.calleeOf(x); fn != nil {
 					if ci := t.funcs[fn]; ci != nil {
-						for _, j := range ci.outs {
+						for _, j := range ci.outs15 {
 							if j < len(x.Args) && t.identObj(x.Args[j]) == types.Object(p) {
 								written = true
 							}
@@ -508,15 +508,15 @@ func (t *Translator) outs15(fi *funcInfo) bool {
 			return true
 		})
 		if written {
-			fi.outs = append(fi.outs, i)
+			fi.outs15 = append(fi.outs15, i)
 			changed = true
 		}
 	}
 	if changed {
-		for a := 0; a < len(fi.outs); a++ { // keep parameter order
-			for b := a + 1; b < len(fi.outs); b++ {
-				if fi.outs[b] < fi.outs[a] {
-					fi.outs[a], fi.outs[b] = fi.outs[b], fi.outs[a]
+		for a := 0; a < len(fi.outs15); a++ { // keep parameter order
+			for b := a + 1; b < len(fi.outs15); b++ {
+				if fi.outs15[b] < fi.outs15[a] {
+					fi.outs15[a], fi.outs15[b] = fi.outs15[b], fi.outs15[a]
 				}
 			}
 		}
@@ -526,12 +526,12 @@ func (t *Translator) outs15(fi *funcInfo) bool {
 
 // outVars15: the out-parameters of fi as variables; also refuses a whole assignment to one of them
 func (t *Translator) outVars15(fi *funcInfo) []*types.Var {
-	if len(fi.outs) == 0 {
+	if len(fi.outs15) == 0 {
 		return nil
 	}
 	sig := fi.obj.Type().(*types.Signature)
 	var vs []*types.Var
-	for _, i := range fi.outs {
+	for _, i := range fi.outs15 {
 		vs = append(vs, sig.Params().At(i))
 	}
 	return vs
@@ -564,7 +564,7 @@ func (c *fctx) outNames15(en *env) []string {
 // outArgs15: at a call of fi, the variables that receive the written slices back; refuses aliasing between arguments
 func (c *fctx) outArgs15(fi *funcInfo, x *ast.CallExpr, en *env) []string {
 	var ns []string
-	for _, j := range fi.outs {
+	for _, j := range fi.outs15 {
 		a := ast.Unparen(x.Args[j])
 		id, ok := a.(*ast.Ident)
 		var v *varInfo
@@ -599,7 +599,7 @@ func (c *fctx) outArgs15(fi *funcInfo, x *ast.CallExpr, en *env) []string {
 func (t *Translator) outAssigned15(x *ast.CallExpr, f func(types.Object)) {
 	if fn, _ := t.calleeOf(x); fn != nil {
 		if fi := t.funcs[fn]; fi != nil {
-			for _, j := range fi.outs {
+			for _, j := range fi.outs15 {
 				if j < len(x.Args) {
 					if o := t.identObj(x.Args[j]); o != nil {
 						f(o)
